@@ -441,7 +441,8 @@ impl World {
 			let bals = self.claimable_balances(n);
 			self.out.bump("oracle:C07-4 claimable balances drain to nothing");
 			if !bals.is_empty() {
-				let total: u64 = bals.iter().map(|b| b.claimable_amount_satoshis()).sum();
+				// outputs too small to pay for their own claim at the minimum relay fee stay listed
+				let total: u64 = bals.iter().map(|b| b.claimable_amount_satoshis()).filter(|v| *v >= 1000).sum();
 				if total > 0 {
 					self.violate(
 						"C07",
